@@ -42,7 +42,10 @@ TFit == /\ l <= Len(Trace) /\ Rec.kind = "fit"
                     <<"dimension", tr[Rec.trid].kind \in Stateful => Rec.dim_after = last'.dim_after>>,
                     \* history-free: the result equals that of a fresh trainer on the same arguments
                     <<"history_free", (Rec.accepted /\ last'.accepted) => Rec.d = Rec.d_fresh>>,
-                    <<"functional", (Rec.accepted /\ last'.accepted) => MemoOK(key, Rec.d)>> >>),
+                    <<"functional", (Rec.accepted /\ last'.accepted) => MemoOK(key, Rec.d)>>,
+                    \* ... and that of a fresh trainer in a fresh interpreter process that met the fits in another order
+                    \* (Rec.d_proc = "" when no reference evaluation was made)
+                    <<"process_history_free", (Rec.accepted /\ last'.accepted /\ Rec.d_proc # "") => Rec.d = Rec.d_proc>> >>),
                     Len(hist) >= 2)
 
 \* a stuttering-free step for operations the specification cannot take (more ops than MaxLen etc.)
